@@ -42,7 +42,7 @@ func newMachine(P *Program, fn *ssa.Function, fc *FuncContract) *Machine {
 		implUsed: map[string]*types.Interface{}, globals: map[*ssa.Global]int64{},
 		trusted: map[string]bool{}, usedContracts: map[string]bool{},
 		loops: map[*ssa.Function]*loopInfo{}, loopHavoc: map[string]map[string]bool{},
-		baseInfo: map[int]*baseArrInfo{}, maxPaths: 5000, ctxParent: map[int]*Iface{}, runeSrc: map[int]*runeInfo{}, ownedChans: map[int]bool{}, guardedMaps: map[int]bool{}, recCache: map[*ssa.Function]bool{}, recReads: map[*ssa.Function][]string{}, recDepth: map[*ssa.Function]int{}, memSortOf: map[string]*Sort{},
+		baseInfo: map[int]*baseArrInfo{}, maxPaths: 5000, ctxParent: map[int]*Iface{}, runeSrc: map[int]*runeInfo{}, ownedChans: map[int]bool{}, knownCode: map[int]*ssa.Function{}, guardedMaps: map[int]bool{}, recCache: map[*ssa.Function]bool{}, recReads: map[*ssa.Function][]string{}, recDepth: map[*ssa.Function]int{}, memSortOf: map[string]*Sort{},
 	}
 	if fc != nil && fc.MaxPaths > 0 {
 		m.maxPaths = fc.MaxPaths
@@ -73,7 +73,14 @@ func verifyFuncMode(P *Program, name string, refute bool) (rep *FuncReport) {
 	defer func() {
 		if e := recover(); e != nil {
 			if u, ok := e.(unsupportedErr); ok {
-				rep.Problems = append(rep.Problems, u.Error())
+				where := ""
+				if m.lastFn != nil && m.lastIns != nil {
+					where = fmt.Sprintf(" (at %s: %s)", relName(m.lastFn), m.lastIns.String())
+				}
+				rep.Problems = append(rep.Problems, u.Error()+where)
+				if os.Getenv("GOVC_DEBUG") != "" {
+					fmt.Fprintf(os.Stderr, "%s\n%s\n", u.Error(), debug.Stack())
+				}
 			} else if u, ok := e.(error); ok && strings.HasPrefix(u.Error(), "unsupported:") {
 				rep.Problems = append(rep.Problems, u.Error())
 			} else {
